@@ -17,6 +17,12 @@ CHECKS = {
  "C04": ("exploration", "model-based property testing (proptest): random straight-line programs over all 53 ark / 14 min operator forms, compared after every instruction with an affine big-integer group-law model; algebraic-law cases through the library's equality",
          "Generated-input search over programs and operand pairs incl. identity, 2-torsion representative, P with -P, P with P; per-form execution counts in the evidence (a form never run fails the run as a harness error).",
          "Trusts the affine addition law in the model and the coordinate hook.", "5/C04"),
+ "C05": ("exploration", "property-based testing (proptest): element recipes x structured scalars (boundary values, powers of two, all-ones limbs, limb vectors beyond the modulus) x all 20+5+6 multiplication forms vs. an independent big-integer double-and-add; module laws and r*P identity predicates",
+         "Generated-input search; every explored (element, scalar, form) triple agrees with the reference k-fold sum as an element; per-form counts in the evidence.",
+         "Trusts the model's projective double-and-add (unit-tested against the affine law).", "5/C05"),
+ "C08": ("exploration", "property-based testing (proptest): recipe pairs constructed equal through different coset representatives / projective scalings, and independent pairs; metamorphic oracle (model equality <=> == <=> equal encodings, equal => equal hash stream, identity predicates agree)",
+         "Generated-input search over pairs incl. (r-1)*Q vs -Q, P+Q-Q vs P, Q+(r-1)*Q vs identity for Element and AffinePoint; a recording hasher compares the whole byte stream fed to Hash.",
+         "Trusts the model's coset equality; min has no Hash/Zero to check.", "5/C08"),
 }
 PENDING = {}
 
